@@ -500,6 +500,7 @@ func durableCases() []dcase {
 }
 
 func run(c *h.Check) {
+	runRealStores(c)
 	for i, d := range durableCases() {
 		if !c.Mine(i) {
 			continue
@@ -564,7 +565,15 @@ func stripDigits(s string) string {
 
 func replay(c *h.Check, rf *h.ReplayFile) []vrt.Violation {
 	var probe struct {
-		Durable *dcase `json:"durable"`
+		Durable *dcase    `json:"durable"`
+		Real    *realCase `json:"real"`
+	}
+	if json.Unmarshal(rf.Ops, &probe) == nil && probe.Real != nil {
+		var vs []vrt.Violation
+		for _, m := range runReal(*probe.Real) {
+			vs = append(vs, vrt.Violation{Kind: "real-store", Sig: stripDigits(m), Detail: m})
+		}
+		return vs
 	}
 	if json.Unmarshal(rf.Ops, &probe) == nil && probe.Durable != nil {
 		var vs []vrt.Violation
